@@ -28,8 +28,27 @@ const wsPlans = 2
 // reached the plan but not the search record before the crash (the index still lists them as Running).
 type lagVault struct {
 	*spy
-	lmu   sync.Mutex
-	stale map[uuid.UUID]workflow.State
+	lmu      sync.Mutex
+	stale    map[uuid.UUID]workflow.State
+	failRead map[uuid.UUID]int // armed transient faults: the next reads of these plans fail
+	slowRead time.Duration     // every read takes at least this long (widens the windows of racing Starts)
+}
+
+func (l *lagVault) Read(ctx context.Context, id uuid.UUID) (*workflow.Plan, error) {
+	l.lmu.Lock()
+	fail := l.failRead[id] > 0
+	if fail {
+		l.failRead[id]--
+	}
+	slow := l.slowRead
+	l.lmu.Unlock()
+	if slow > 0 {
+		time.Sleep(slow)
+	}
+	if fail {
+		return nil, fmt.Errorf("injected transient read failure")
+	}
+	return l.spy.Read(ctx, id)
 }
 
 func (l *lagVault) Recovery(ctx context.Context) error {
@@ -131,7 +150,8 @@ func runWS(rec *recorder, sc *Scenario) error {
 		}
 		return o
 	}
-	ws, err := coercion.New(ctx, reg, &lagVault{spy: sp}, mkOpts(true)...)
+	lv := &lagVault{spy: sp, failRead: map[uuid.UUID]int{}}
+	ws, err := coercion.New(ctx, reg, lv, mkOpts(true)...)
 	if err != nil {
 		return err
 	}
@@ -144,7 +164,7 @@ func runWS(rec *recorder, sc *Scenario) error {
 	}
 	var mu sync.Mutex // guards plans[*].started / ws swap against background callers
 	var bg sync.WaitGroup
-	nextBG := 4
+	nextBG := 8 // racing callers use 1..6
 	hang := false
 
 	guard := func(c int, op string, f func()) {
@@ -306,6 +326,32 @@ func runWS(rec *recorder, sc *Scenario) error {
 			s.emit(pi, func() ev { return ev{"ev": "XRet", "c": 0, "op": "submit", "p": pi + 1, "res": "ok", "olda": false} })
 		case name == "sleep":
 			time.Sleep(time.Duration(n) * time.Millisecond)
+		case strings.HasPrefix(name, "racef"):
+			// k Starts arriving one shortly after the other while the storage fails the first read of the plan (a
+			// transient fault) and every read is slow: the Start that fails must not let two others in together
+			k := 3
+			fmt.Sscan(name[5:], &k)
+			pp := plans[n-1]
+			lv.lmu.Lock()
+			lv.failRead[pp.id] = 1
+			lv.slowRead = 400 * time.Microsecond
+			lv.lmu.Unlock()
+			s.emit(n-1, func() ev { return ev{"ev": "XFault", "p": n} })
+			var wg sync.WaitGroup
+			for i := 1; i <= k; i++ {
+				wg.Add(1)
+				go func() {
+					defer wg.Done()
+					do(s, ws, i, "start", n-1, !recovery)
+				}()
+				time.Sleep(time.Duration(60+40*i) * time.Microsecond)
+			}
+			wg.Wait()
+			lv.lmu.Lock()
+			lv.failRead[pp.id] = 0
+			lv.slowRead = 0
+			lv.lmu.Unlock()
+			s.emit(n-1, func() ev { return ev{"ev": "XFaultClear", "p": n} })
 		case strings.HasPrefix(name, "race"):
 			k := 2
 			fmt.Sscan(name[4:], &k)
@@ -429,7 +475,8 @@ func runWS(rec *recorder, sc *Scenario) error {
 				pp.started = recovery && st[pi] == "RU" && !aged[pi]
 			}
 			mu.Unlock()
-			ws, err = coercion.New(ctx, reg, &lagVault{spy: sp, stale: stale}, mkOpts(recovery)...)
+			lv = &lagVault{spy: sp, stale: stale, failRead: map[uuid.UUID]int{}}
+			ws, err = coercion.New(ctx, reg, lv, mkOpts(recovery)...)
 			if err != nil {
 				return fmt.Errorf("restart New: %w", err)
 			}
